@@ -56,43 +56,891 @@ inductive WalkLen (g : MGraph) : Nat → Nat → Nat → Prop
 /-- `n` is the hop distance from `s` to `x` -/
 def IsDist (g : MGraph) (s x n : Nat) : Prop := WalkLen g s x n ∧ ∀ m, WalkLen g s x m → n ≤ m
 
+
+/-! ### general helpers -/
+
+theorem reach_trans {g : MGraph} {a b c : Nat} (h1 : Reach g a b) (h2 : Reach g b c) : Reach g a c := by
+  induction h2 with
+  | refl => exact h1
+  | step _ hc ih => exact Reach.step ih hc
+
+theorem ReachAvoid.not_mem {g : MGraph} {D : List Nat} {a b : Nat} (h : ReachAvoid g D a b) : b ∉ D := by
+  cases h with
+  | refl h => exact h
+  | step _ _ h => exact h
+
+theorem reachAvoid_nil {g : MGraph} {a b : Nat} : ReachAvoid g [] a b ↔ Reach g a b := by
+  constructor
+  · intro h
+    induction h with
+    | refl => exact Reach.refl _
+    | step _ hc _ ih => exact Reach.step ih hc
+  · intro h
+    induction h with
+    | refl => exact ReachAvoid.refl (by simp)
+    | step _ hc ih => exact ReachAvoid.step ih hc (by simp)
+
+theorem not_contains {l : List Nat} {y : Nat} : (!l.contains y) = true ↔ y ∉ l := by simp
+
+/-! ### Dfs -/
+
+structure DfsInv (g : MGraph) (D : List Nat) (s : Nat) (stack disc acc : List Nat) : Prop where
+  nodup : acc.Nodup
+  discEq : ∀ x, x ∈ disc ↔ x ∈ D ∨ x ∈ acc
+  accAvoid : ∀ x, x ∈ acc → ReachAvoid g D s x
+  stAvoid : ∀ x, x ∈ stack → x ∈ disc ∨ ReachAvoid g D s x
+  closed : ∀ x, x ∈ acc → ∀ y, g.Adj x y → y ∈ disc ∨ y ∈ stack
+  start : s ∈ disc ∨ s ∈ stack
+
+theorem dfsNext_inv (v : View) (hv : ViewOk v) (D : List Nat) (s : Nat) (acc : List Nat) :
+    ∀ (f : Nat) (d : Dfs) (r : Option Nat) (d' : Dfs), DfsInv v.g D s d.stack d.disc acc →
+      dfsNext v f d = some (r, d') →
+      (r = none → DfsInv v.g D s [] d'.disc acc) ∧
+      (∀ x, r = some x → DfsInv v.g D s d'.stack d'.disc (acc ++ [x])) := by
+  intro f
+  induction f with
+  | zero => intro d r d' _ h; simp [dfsNext] at h
+  | succ f ih =>
+    intro d r d' inv h
+    rw [dfsNext] at h
+    split at h
+    · rename_i hst
+      simp only [Option.some.injEq, Prod.mk.injEq] at h
+      obtain ⟨rfl, rfl⟩ := h
+      rw [hst] at inv
+      exact ⟨fun _ => inv, fun x hx => by cases hx⟩
+    · rename_i x st hst
+      rw [hst] at inv
+      split at h
+      · rename_i hx
+        apply ih _ r d' _ h
+        refine ⟨inv.nodup, inv.discEq, inv.accAvoid, fun y hy => inv.stAvoid y (List.mem_cons_of_mem _ hy), ?_, ?_⟩
+        · intro a ha y hy
+          rcases inv.closed a ha y hy with h | h
+          · exact Or.inl h
+          · rcases List.mem_cons.mp h with h | h
+            · exact Or.inl (h ▸ hx)
+            · exact Or.inr h
+        · rcases inv.start with h | h
+          · exact Or.inl h
+          · rcases List.mem_cons.mp h with h | h
+            · exact Or.inl (h ▸ hx)
+            · exact Or.inr h
+      · rename_i hx
+        simp only [Option.some.injEq, Prod.mk.injEq] at h
+        obtain ⟨rfl, rfl⟩ := h
+        refine ⟨fun h => (by cases h), ?_⟩
+        intro x' hx'
+        simp only [Option.some.injEq] at hx'
+        subst hx'
+        have hxr : ReachAvoid v.g D s x := by
+          rcases inv.stAvoid x (List.mem_cons_self ..) with h | h
+          · exact absurd h hx
+          · exact h
+        have hxacc : x ∉ acc := fun h => hx ((inv.discEq x).mpr (Or.inr h))
+        refine ⟨?_, ?_, ?_, ?_, ?_, ?_⟩
+        · exact List.nodup_append.mpr ⟨inv.nodup, by simp, by
+            intro a ha b hb; simp at hb; subst hb; intro hab; subst hab; exact hxacc ha⟩
+        · intro y
+          simp only [List.mem_cons, List.mem_append, inv.discEq y]
+          grind
+        · intro y hy
+          rcases List.mem_append.mp hy with h | h
+          · exact inv.accAvoid y h
+          · simp at h; subst h; exact hxr
+        · intro y hy
+          simp only [List.mem_append, List.mem_reverse, List.mem_filter] at hy
+          rcases hy with ⟨hy1, hy2⟩ | hy
+          · by_cases hyD : y ∈ D
+            · exact Or.inl (List.mem_cons_of_mem _ ((inv.discEq y).mpr (Or.inl hyD)))
+            · exact Or.inr (ReachAvoid.step hxr ((hv x y).mp hy1) hyD)
+          · rcases inv.stAvoid y (List.mem_cons_of_mem _ hy) with h | h
+            · exact Or.inl (List.mem_cons_of_mem _ h)
+            · exact Or.inr h
+        · intro a ha y hy
+          simp only [List.mem_append, List.mem_reverse, List.mem_filter, List.mem_cons]
+          rcases List.mem_append.mp ha with h | h
+          · rcases inv.closed a h y hy with h' | h'
+            · exact Or.inl (Or.inr h')
+            · rcases List.mem_cons.mp h' with h'' | h''
+              · exact Or.inl (Or.inl h'')
+              · exact Or.inr (Or.inr h'')
+          · simp at h; subst h
+            by_cases hyd : y = a ∨ y ∈ d.disc
+            · exact Or.inl hyd
+            · refine Or.inr (Or.inl ⟨(hv a y).mpr hy, ?_⟩)
+              exact not_contains.mpr (by simpa using hyd)
+        · rcases inv.start with h | h
+          · exact Or.inl (List.mem_cons_of_mem _ h)
+          · rcases List.mem_cons.mp h with h | h
+            · exact Or.inl (h ▸ List.mem_cons_self ..)
+            · exact Or.inr (List.mem_append.mpr (Or.inr h))
+
+theorem dfsAll_inv (v : View) (hv : ViewOk v) (D : List Nat) (s : Nat) (inner : Nat) :
+    ∀ (k : Nat) (d : Dfs) (acc out : List Nat) (d' : Dfs), DfsInv v.g D s d.stack d.disc acc →
+      dfsAll v inner k d acc = some (out, d') → DfsInv v.g D s [] d'.disc out := by
+  intro k
+  induction k with
+  | zero => intro d acc out d' _ h; simp [dfsAll] at h
+  | succ k ih =>
+    intro d acc out d' inv h
+    rw [dfsAll] at h
+    split at h
+    · cases h
+    · rename_i d1 hn
+      simp only [Option.some.injEq, Prod.mk.injEq] at h
+      obtain ⟨rfl, rfl⟩ := h
+      exact (dfsNext_inv v hv D s acc inner d none _ inv hn).1 rfl
+    · rename_i x d1 hn
+      exact ih d1 _ out d' ((dfsNext_inv v hv D s acc inner d (some x) _ inv hn).2 x rfl) h
+
+
+theorem idxOf_snoc_mem {l : List Nat} {a x : Nat} (h : a ∈ l) : (l ++ [x]).idxOf a = l.idxOf a := by
+  rw [List.idxOf_append, if_pos h]
+
+theorem idxOf_snoc_new {l : List Nat} {x : Nat} (h : x ∉ l) : (l ++ [x]).idxOf x = l.length := by
+  rw [List.idxOf_append, if_neg h, List.idxOf_cons_self]; simp
+
+theorem nodup_snoc {l : List Nat} {x : Nat} (hl : l.Nodup) (h : x ∉ l) : (l ++ [x]).Nodup :=
+  List.nodup_append.mpr ⟨hl, by simp, by
+    intro a ha b hb; simp at hb; subst hb; intro hab; subst hab; exact h ha⟩
+
+/-! ### Topo -/
+
+structure TopoInv (g : MGraph) (tovisit ordered acc : List Nat) : Prop where
+  nodup : acc.Nodup
+  ordEq : ∀ x, x ∈ ordered ↔ x ∈ acc
+  ready : ∀ x, x ∈ tovisit → ∀ p, g.Adj p x → p ∈ ordered
+  order : ∀ x, x ∈ acc → ∀ p, g.Adj p x → p ∈ acc ∧ acc.idxOf p < acc.idxOf x
+
+theorem topoNext_inv (v : View) (hp : PredOk v) (acc : List Nat) :
+    ∀ (f : Nat) (t : Topo) (x : Nat) (t' : Topo), TopoInv v.g t.tovisit t.ordered acc →
+      topoNext v f t = some (some x, t') → TopoInv v.g t'.tovisit t'.ordered (acc ++ [x]) := by
+  intro f
+  induction f with
+  | zero => intro t x t' _ h; simp [topoNext] at h
+  | succ f ih =>
+    intro t x t' inv h
+    rw [topoNext] at h
+    split at h
+    · simp at h
+    · rename_i y rest hst
+      rw [hst] at inv
+      split at h
+      · have inv' : TopoInv v.g rest t.ordered acc :=
+          ⟨inv.nodup, inv.ordEq, fun z hz => inv.ready z (List.mem_cons_of_mem _ hz), inv.order⟩
+        exact ih _ x t' inv' h
+      · rename_i hy
+        simp only [Option.some.injEq, Prod.mk.injEq] at h
+        obtain ⟨rfl, rfl⟩ := h
+        have hyo : y ∉ t.ordered := by simpa using hy
+        have hya : y ∉ acc := fun h => hyo ((inv.ordEq y).mpr h)
+        refine ⟨nodup_snoc inv.nodup hya, ?_, ?_, ?_⟩
+        · intro z
+          simp only [List.mem_cons, List.mem_append, inv.ordEq z]
+          grind
+        · intro z hz p hpz
+          simp only [List.mem_append, List.mem_reverse, List.mem_filter, List.all_eq_true] at hz
+          rcases hz with ⟨_, hz⟩ | hz
+          · simpa using hz p ((hp z p).mpr hpz)
+          · exact List.mem_cons_of_mem _ (inv.ready z (List.mem_cons_of_mem _ hz) p hpz)
+        · intro z hz p hpz
+          rcases List.mem_append.mp hz with hz | hz
+          · have := inv.order z hz p hpz
+            refine ⟨List.mem_append_left _ this.1, ?_⟩
+            rw [idxOf_snoc_mem this.1, idxOf_snoc_mem hz]; exact this.2
+          · simp at hz; subst hz
+            have hpa : p ∈ acc := (inv.ordEq p).mp (inv.ready z (List.mem_cons_self ..) p hpz)
+            refine ⟨List.mem_append_left _ hpa, ?_⟩
+            rw [idxOf_snoc_mem hpa, idxOf_snoc_new hya]
+            exact List.idxOf_lt_length_of_mem hpa
+
+theorem topoAll_inv (v : View) (hp : PredOk v) (inner : Nat) :
+    ∀ (k : Nat) (t : Topo) (acc out : List Nat), TopoInv v.g t.tovisit t.ordered acc →
+      topoAll v inner k t acc = some out →
+      out.Nodup ∧ ∀ x ∈ out, ∀ p, v.g.Adj p x → p ∈ out ∧ out.idxOf p < out.idxOf x := by
+  intro k
+  induction k with
+  | zero => intro t acc out _ h; simp [topoAll] at h
+  | succ k ih =>
+    intro t acc out inv h
+    rw [topoAll] at h
+    split at h
+    · cases h
+    · simp only [Option.some.injEq] at h
+      subst h
+      exact ⟨inv.nodup, inv.order⟩
+    · rename_i x t1 hn
+      exact ih t1 _ out (topoNext_inv v hp acc inner t x t1 inv hn) h
+
+
+/-! ### depth_first_search event times -/
+
+def evTime : Ev → Option Nat
+  | .discover _ t => some t
+  | .finish _ t => some t
+  | _ => none
+
+/-- the Discover/Finish times recorded so far are `0, 1, …, time-1` in order -/
+def TimesOk (s : VS) : Prop := s.evs.reverse.filterMap evTime = List.range s.time
+
+theorem timesOk_tick {s : VS} {e : Ev} {script : List Ctl} (h : TimesOk s) (he : evTime e = some s.time) :
+    TimesOk (emit script { s with time := s.time + 1 } e).1 := by
+  simp only [TimesOk, emit, List.reverse_cons, List.filterMap_append, List.filterMap_cons, he,
+    List.filterMap_nil, List.range_succ] at *
+  rw [h]
+
+theorem timesOk_emit {s : VS} {e : Ev} {script : List Ctl} (h : TimesOk s) (he : evTime e = none) :
+    TimesOk (emit script s e).1 := by
+  simp only [TimesOk, emit, List.reverse_cons, List.filterMap_append, List.filterMap_cons, he,
+    List.filterMap_nil, List.append_nil] at *
+  exact h
+
+theorem timesOk_disc {s : VS} {l : List Nat} (h : TimesOk s) : TimesOk { s with disc := l } := h
+theorem timesOk_fin {s : VS} {l : List Nat} (h : TimesOk s) : TimesOk { s with fin := l } := h
+
+theorem dfsv_timesOk (v : View) (script : List Ctl) :
+    ∀ f : Nat, (∀ u s, TimesOk s → TimesOk (dfsVisitor v script f u s).1) ∧
+      (∀ u ws s, TimesOk s → TimesOk (neighLoop v script f u ws s).1) := by
+  intro f
+  induction f with
+  | zero =>
+    constructor
+    · intro u s h; rw [dfsVisitor]; exact h
+    · intro u ws s h; rw [neighLoop]; exact h
+  | succ f ih =>
+    obtain ⟨ihV, ihN⟩ := ih
+    constructor
+    · intro u s h
+      rw [dfsVisitor]
+      split
+      · exact h
+      · have h1 : TimesOk (emit script { disc := u :: s.disc, fin := s.fin, time := s.time + 1, evs := s.evs }
+            (.discover u s.time)).1 :=
+          timesOk_tick (s := { s with disc := u :: s.disc }) (timesOk_disc h) rfl
+        dsimp only at h1 ⊢
+        generalize emit script _ (Ev.discover u s.time) = p at h1 ⊢
+        obtain ⟨s1, c1⟩ := p
+        dsimp only at h1 ⊢
+        split
+        · exact h1
+        · have h2 : TimesOk (if c1 = Ctl.prune then (s1, Res.cont) else neighLoop v script f u (v.succ u) s1).1 := by
+            split
+            · exact h1
+            · exact ihN _ _ _ h1
+          generalize (if c1 = Ctl.prune then (s1, Res.cont) else neighLoop v script f u (v.succ u) s1) = q at h2 ⊢
+          obtain ⟨s2, r2⟩ := q
+          dsimp only at h2 ⊢
+          split
+          · have h3 := timesOk_tick (s := { s2 with fin := u :: s2.fin }) (script := script)
+              (e := .finish u s2.time) (timesOk_fin h2) rfl
+            dsimp only at h3
+            generalize emit script _ (Ev.finish u s2.time) = p3 at h3 ⊢
+            obtain ⟨s3, c3⟩ := p3
+            dsimp only at h3 ⊢
+            split <;> exact h3
+          · exact h2
+    · intro u ws s h
+      cases ws with
+      | nil => rw [neighLoop]; exact h; exact fun h => Nat.succ_ne_zero _ h
+      | cons w ws =>
+        rw [neighLoop]
+        split
+        · have h1 := timesOk_emit (script := script) (e := .tree u w) h rfl
+          generalize emit script s (Ev.tree u w) = p at h1 ⊢
+          obtain ⟨s1, c1⟩ := p
+          dsimp only at h1 ⊢
+          split
+          · exact h1
+          · exact ihN _ _ _ h1
+          · have h2 := ihV w s1 h1
+            generalize dfsVisitor v script f w s1 = q at h2 ⊢
+            obtain ⟨s2, r2⟩ := q
+            dsimp only at h2 ⊢
+            split
+            · exact ihN _ _ _ h2
+            · exact h2
+        · have h1 : TimesOk (emit script s (if !s.fin.contains w then Ev.back u w else Ev.cross u w)).1 :=
+            timesOk_emit h (by split <;> rfl)
+          generalize emit script s (if !s.fin.contains w then Ev.back u w else Ev.cross u w) = p at h1 ⊢
+          obtain ⟨s1, c1⟩ := p
+          dsimp only at h1 ⊢
+          split
+          · exact h1
+          · exact ihN _ _ _ h1
+
+theorem dfsSearch_timesOk (v : View) (script : List Ctl) (fuel : Nat) :
+    ∀ (starts : List Nat) (s : VS), TimesOk s → TimesOk (dfsSearch v script fuel starts s).1 := by
+  intro starts
+  induction starts with
+  | nil => intro s h; exact h
+  | cons st rest ih =>
+    intro s h
+    rw [dfsSearch]
+    have h1 := (dfsv_timesOk v script fuel).1 st s h
+    generalize dfsVisitor v script fuel st s = q at h1 ⊢
+    obtain ⟨s1, r1⟩ := q
+    dsimp only at h1 ⊢
+    split
+    · exact ih _ h1
+    · exact h1
+
+
+/-! ### DfsPostOrder -/
+
+/-- the stack entries above the topmost copy of `z` -/
+def above (z : Nat) (l : List Nat) : List Nat := l.takeWhile (· != z)
+
+theorem above_cons_self (z : Nat) (l : List Nat) : above z (z :: l) = [] := by
+  simp [above]
+
+theorem above_cons_ne {a z : Nat} (l : List Nat) (h : a ≠ z) : above z (a :: l) = a :: above z l := by
+  simp [above, h]
+
+theorem above_append {z : Nat} {A : List Nat} (l : List Nat) (h : z ∉ A) : above z (A ++ l) = A ++ above z l := by
+  unfold above
+  apply List.takeWhile_append_of_pos
+  intro a ha
+  simp only [bne_iff_ne, ne_eq]
+  intro haz; subst haz; exact h ha
+
+structure PostInv (g : MGraph) (s : Nat) (stack disc fin : List Nat) : Prop where
+  finDisc : ∀ x, x ∈ fin → x ∈ disc
+  grayStack : ∀ x, x ∈ disc → x ∉ fin → x ∈ stack
+  discReach : ∀ x, x ∈ disc → Reach g s x
+  stReach : ∀ x, x ∈ stack → Reach g s x
+  start : s ∈ disc ∨ s ∈ stack
+  closed : ∀ x, x ∈ fin → ∀ y, g.Adj x y → y ∈ disc
+  grayAbove : ∀ z, z ∈ disc → z ∉ fin → ∀ w, w ∈ above z stack → Reach g z w
+  grayAdj : ∀ z, z ∈ disc → z ∉ fin → ∀ y, g.Adj z y → y ∈ disc ∨ y ∈ above z stack
+
+theorem postInv_push (v : View) (hv : ViewOk v) (s x : Nat) (st disc fin : List Nat)
+    (inv : PostInv v.g s (x :: st) disc fin) (hx : x ∉ disc) :
+    PostInv v.g s (((v.succ x).filter (fun y => !(x :: disc).contains y)).reverse ++ (x :: st))
+      (x :: disc) fin := by
+  have hxr : Reach v.g s x := inv.stReach x (List.mem_cons_self ..)
+  have hxfin : x ∉ fin := fun h => hx (inv.finDisc x h)
+  have hP : ∀ w, w ∈ ((v.succ x).filter (fun y => !(x :: disc).contains y)).reverse ↔
+      v.g.Adj x w ∧ w ∉ x :: disc := by
+    intro w
+    rw [List.mem_reverse, List.mem_filter, not_contains, hv x w]
+  have habove : ∀ z, z ∈ x :: disc →
+      above z (((v.succ x).filter (fun y => !(x :: disc).contains y)).reverse ++ (x :: st)) =
+        ((v.succ x).filter (fun y => !(x :: disc).contains y)).reverse ++ above z (x :: st) := by
+    intro z hz
+    apply above_append
+    intro h
+    exact ((hP z).mp h).2 hz
+  generalize ((v.succ x).filter (fun y => !(x :: disc).contains y)).reverse = P at hP habove ⊢
+  refine ⟨?_, ?_, ?_, ?_, ?_, ?_, ?_, ?_⟩
+  · intro a ha; exact List.mem_cons_of_mem _ (inv.finDisc a ha)
+  · intro a ha hafin
+    rcases List.mem_cons.mp ha with h | h
+    · subst h; simp
+    · exact List.mem_append_right _ (inv.grayStack a h hafin)
+  · intro a ha
+    rcases List.mem_cons.mp ha with h | h
+    · exact h ▸ hxr
+    · exact inv.discReach a h
+  · intro a ha
+    rcases List.mem_append.mp ha with h | h
+    · exact Reach.step hxr ((hP a).mp h).1
+    · exact inv.stReach a h
+  · rcases inv.start with h | h
+    · exact Or.inl (List.mem_cons_of_mem _ h)
+    · exact Or.inr (List.mem_append_right _ h)
+  · intro a ha y hy; exact List.mem_cons_of_mem _ (inv.closed a ha y hy)
+  · intro z hz hzfin w hw
+    rw [habove z hz] at hw
+    rcases List.mem_cons.mp hz with h | h
+    · subst h
+      rw [above_cons_self, List.append_nil] at hw
+      exact Reach.step (Reach.refl _) ((hP w).mp hw).1
+    · have hzx : x ≠ z := fun e => hx (e ▸ h)
+      rcases List.mem_append.mp hw with hw | hw
+      · have : Reach v.g z x := inv.grayAbove z h hzfin x (by rw [above_cons_ne _ hzx]; simp)
+        exact Reach.step this ((hP w).mp hw).1
+      · exact inv.grayAbove z h hzfin w hw
+  · intro z hz hzfin y hy
+    rw [habove z hz]
+    rcases List.mem_cons.mp hz with h | h
+    · subst h
+      by_cases hyd : y ∈ z :: disc
+      · exact Or.inl hyd
+      · exact Or.inr (List.mem_append_left _ ((hP y).mpr ⟨hy, hyd⟩))
+    · rcases inv.grayAdj z h hzfin y hy with h' | h'
+      · exact Or.inl (List.mem_cons_of_mem _ h')
+      · exact Or.inr (List.mem_append_right _ h')
+
+theorem postInv_pop (g : MGraph) (s x : Nat) (st disc fin fin' : List Nat)
+    (inv : PostInv g s (x :: st) disc fin) (hx : x ∈ disc) (hfin' : ∀ a, a ∈ fin' ↔ a = x ∨ a ∈ fin) :
+    PostInv g s st disc fin' := by
+  have hmono : ∀ z, z ∉ fin' → z ∉ fin ∧ x ≠ z := fun z hz =>
+    ⟨fun h => hz ((hfin' z).mpr (Or.inr h)), fun h => hz ((hfin' z).mpr (Or.inl h.symm))⟩
+  refine ⟨?_, ?_, inv.discReach, fun a ha => inv.stReach a (List.mem_cons_of_mem _ ha), ?_, ?_, ?_, ?_⟩
+  · intro a ha
+    rcases (hfin' a).mp ha with h | h
+    · exact h ▸ hx
+    · exact inv.finDisc a h
+  · intro a ha hafin
+    obtain ⟨h1, h2⟩ := hmono a hafin
+    rcases List.mem_cons.mp (inv.grayStack a ha h1) with h | h
+    · exact absurd h.symm h2
+    · exact h
+  · rcases inv.start with h | h
+    · exact Or.inl h
+    · rcases List.mem_cons.mp h with h | h
+      · exact Or.inl (h ▸ hx)
+      · exact Or.inr h
+  · intro a ha y hy
+    rcases (hfin' a).mp ha with h | h
+    · subst h
+      by_cases hafin : a ∈ fin
+      · exact inv.closed a hafin y hy
+      · rcases inv.grayAdj a hx hafin y hy with h' | h'
+        · exact h'
+        · rw [above_cons_self] at h'; cases h'
+    · exact inv.closed a h y hy
+  · intro z hz hzfin w hw
+    obtain ⟨h1, h2⟩ := hmono z hzfin
+    apply inv.grayAbove z hz h1 w
+    rw [above_cons_ne _ h2]; exact List.mem_cons_of_mem _ hw
+  · intro z hz hzfin y hy
+    obtain ⟨h1, h2⟩ := hmono z hzfin
+    rcases inv.grayAdj z hz h1 y hy with h' | h'
+    · exact Or.inl h'
+    · rw [above_cons_ne _ h2] at h'
+      rcases List.mem_cons.mp h' with h'' | h''
+      · exact Or.inl (h'' ▸ hx)
+      · exact Or.inr h''
+
+theorem postInv_finish (g : MGraph) (s x : Nat) (st disc fin : List Nat)
+    (inv : PostInv g s (x :: st) disc fin) (hx : x ∈ disc) (hxfin : x ∉ fin) :
+    ∀ y, g.Adj x y → ¬ Reach g y x → y ∈ fin := by
+  intro y hy hback
+  have hyd : y ∈ disc := by
+    rcases inv.grayAdj x hx hxfin y hy with h | h
+    · exact h
+    · rw [above_cons_self] at h; cases h
+  apply Classical.byContradiction
+  intro hyfin
+  apply hback
+  by_cases hxy : x = y
+  · exact hxy ▸ Reach.refl _
+  · apply inv.grayAbove y hyd hyfin x
+    rw [above_cons_ne _ hxy]; simp
+
+theorem postNext_inv (v : View) (hv : ViewOk v) (s : Nat) :
+    ∀ (f : Nat) (d : Post) (r : Option Nat) (d' : Post), PostInv v.g s d.stack d.disc d.fin →
+      postNext v f d = some (r, d') →
+      PostInv v.g s d'.stack d'.disc d'.fin ∧
+      (r = none → d'.stack = [] ∧ d'.fin = d.fin) ∧
+      (∀ x, r = some x → d'.fin = x :: d.fin ∧ x ∉ d.fin ∧
+        ∀ y, v.g.Adj x y → ¬ Reach v.g y x → y ∈ d.fin) := by
+  intro f
+  induction f with
+  | zero => intro d r d' _ h; simp [postNext] at h
+  | succ f ih =>
+    intro d r d' inv h
+    rw [postNext] at h
+    split at h
+    · rename_i hst
+      simp only [Option.some.injEq, Prod.mk.injEq] at h
+      obtain ⟨rfl, rfl⟩ := h
+      exact ⟨inv, fun _ => ⟨hst, rfl⟩, fun x hx => by cases hx⟩
+    · rename_i x st hst
+      rw [hst] at inv
+      split at h
+      · rename_i hx
+        have hx' : x ∉ d.disc := not_contains.mp hx
+        refine ih ⟨((v.succ x).filter (fun y => !(x :: d.disc).contains y)).reverse ++ (x :: st),
+          x :: d.disc, d.fin⟩ r d' ?_ h
+        exact postInv_push v hv s x st d.disc d.fin inv hx'
+      · rename_i hx
+        have hx' : x ∈ d.disc := by simpa using hx
+        split at h
+        · rename_i hxf
+          have hxf' : x ∉ d.fin := not_contains.mp hxf
+          simp only [Option.some.injEq, Prod.mk.injEq] at h
+          obtain ⟨rfl, rfl⟩ := h
+          refine ⟨postInv_pop v.g s x st d.disc d.fin _ inv hx' (by simp), fun h => (by cases h), ?_⟩
+          intro x' hx''
+          simp only [Option.some.injEq] at hx''
+          subst hx''
+          exact ⟨rfl, hxf', postInv_finish v.g s x st d.disc d.fin inv hx' hxf'⟩
+        · rename_i hxf
+          have hxf' : x ∈ d.fin := by simpa using hxf
+          refine ih ⟨st, d.disc, d.fin⟩ r d' ?_ h
+          exact postInv_pop v.g s x st d.disc d.fin d.fin inv hx' (by
+            intro a; constructor
+            · exact Or.inr
+            · rintro (h | h)
+              · exact h ▸ hxf'
+              · exact h)
+
+structure AccInv (g : MGraph) (acc fin : List Nat) : Prop where
+  nodup : acc.Nodup
+  accEq : ∀ x, x ∈ acc ↔ x ∈ fin
+  order : ∀ x, x ∈ acc → ∀ y, g.Adj x y → ¬ Reach g y x → y ∈ acc ∧ acc.idxOf y < acc.idxOf x
+
+theorem postAll_inv (v : View) (hv : ViewOk v) (s : Nat) (inner : Nat) :
+    ∀ (k : Nat) (d : Post) (acc out : List Nat) (d' : Post), PostInv v.g s d.stack d.disc d.fin →
+      AccInv v.g acc d.fin → postAll v inner k d acc = some (out, d') →
+      PostInv v.g s [] d'.disc d'.fin ∧ AccInv v.g out d'.fin := by
+  intro k
+  induction k with
+  | zero => intro d acc out d' _ _ h; simp [postAll] at h
+  | succ k ih =>
+    intro d acc out d' inv ainv h
+    rw [postAll] at h
+    split at h
+    · cases h
+    · rename_i d1 hn
+      simp only [Option.some.injEq, Prod.mk.injEq] at h
+      obtain ⟨rfl, rfl⟩ := h
+      obtain ⟨h1, h2, _⟩ := postNext_inv v hv s inner d none _ inv hn
+      obtain ⟨h3, h4⟩ := h2 rfl
+      rw [h3] at h1
+      rw [← h4] at ainv
+      exact ⟨h1, ainv⟩
+    · rename_i x d1 hn
+      obtain ⟨h1, _, h2⟩ := postNext_inv v hv s inner d (some x) _ inv hn
+      obtain ⟨h3, h4, h5⟩ := h2 x rfl
+      have hxa : x ∉ acc := fun h => h4 ((ainv.accEq x).mp h)
+      apply ih d1 _ out d' h1 _ h
+      rw [h3]
+      refine ⟨nodup_snoc ainv.nodup hxa, ?_, ?_⟩
+      · intro a
+        simp only [List.mem_append, List.mem_cons, ainv.accEq a]
+        grind
+      · intro a ha y hy hback
+        rcases List.mem_append.mp ha with ha | ha
+        · have := ainv.order a ha y hy hback
+          refine ⟨List.mem_append_left _ this.1, ?_⟩
+          rw [idxOf_snoc_mem this.1, idxOf_snoc_mem ha]; exact this.2
+        · simp at ha; subst ha
+          have hya : y ∈ acc := (ainv.accEq y).mpr (h5 y hy hback)
+          refine ⟨List.mem_append_left _ hya, ?_⟩
+          rw [idxOf_snoc_mem hya, idxOf_snoc_new hxa]
+          exact List.idxOf_lt_length_of_mem hya
+
+theorem post_all (v : View) (hv : ViewOk v) (s : Nat) (inner outer : Nat) (out : List Nat)
+    (d' : Post) (h : postAll v inner outer { stack := [s] } [] = some (out, d')) :
+    PostInv v.g s [] d'.disc d'.fin ∧ AccInv v.g out d'.fin := by
+  apply postAll_inv v hv s inner outer _ [] out d' _ _ h
+  · refine ⟨by simp, by simp, by simp, ?_, Or.inr (by simp), by simp, by simp, by simp⟩
+    intro x hx; simp at hx; subst hx; exact Reach.refl _
+  · exact ⟨List.nodup_nil, by simp, by simp⟩
+
+
+/-! ### Bfs -/
+
+theorem WalkLen.reach {g : MGraph} {s x n : Nat} (h : WalkLen g s x n) : Reach g s x := by
+  induction h with
+  | zero => exact Reach.refl _
+  | succ _ hc ih => exact Reach.step ih hc
+
+theorem IsDist.unique {g : MGraph} {s x d d' : Nat} (h : IsDist g s x d) (h' : IsDist g s x d') : d = d' :=
+  Nat.le_antisymm (h.2 _ h'.1) (h'.2 _ h.1)
+
+/-- `a` is not farther from `s` than `b` -/
+def dle (g : MGraph) (s a b : Nat) : Prop := ∀ da db, IsDist g s a da → IsDist g s b db → da ≤ db
+
+theorem bfsVisitAll_spec (ys : List Nat) : ∀ (disc q : List Nat), ∃ news,
+    bfsVisitAll disc q ys = (news.reverse ++ disc, q ++ news) ∧ news.Nodup ∧
+    (∀ y, y ∈ news → y ∈ ys ∧ y ∉ disc) ∧ (∀ y, y ∈ ys → y ∈ disc ∨ y ∈ news) := by
+  induction ys with
+  | nil => intro disc q; exact ⟨[], by simp [bfsVisitAll]⟩
+  | cons y ys ih =>
+    intro disc q
+    rw [bfsVisitAll]
+    split
+    · rename_i hy
+      have hy' : y ∈ disc := by simpa using hy
+      obtain ⟨news, h1, h2, h3, h4⟩ := ih disc q
+      refine ⟨news, h1, h2, fun a ha => ⟨List.mem_cons_of_mem _ (h3 a ha).1, (h3 a ha).2⟩, ?_⟩
+      intro a ha
+      rcases List.mem_cons.mp ha with h | h
+      · exact Or.inl (h ▸ hy')
+      · exact h4 a h
+    · rename_i hy
+      have hy' : y ∉ disc := by simpa using hy
+      obtain ⟨news, h1, h2, h3, h4⟩ := ih (y :: disc) (q ++ [y])
+      refine ⟨y :: news, by rw [h1]; simp, ?_, ?_, ?_⟩
+      · exact List.nodup_cons.mpr ⟨fun h => (h3 y h).2 (List.mem_cons_self ..), h2⟩
+      · intro a ha
+        rcases List.mem_cons.mp ha with h | h
+        · subst h; exact ⟨List.mem_cons_self .., hy'⟩
+        · exact ⟨List.mem_cons_of_mem _ (h3 a h).1, fun h' => (h3 a h).2 (List.mem_cons_of_mem _ h')⟩
+      · intro a ha
+        rcases List.mem_cons.mp ha with h | h
+        · exact Or.inr (h ▸ List.mem_cons_self ..)
+        · rcases h4 a h with h' | h'
+          · rcases List.mem_cons.mp h' with h'' | h''
+            · exact Or.inr (h'' ▸ List.mem_cons_self ..)
+            · exact Or.inl h''
+          · exact Or.inr (List.mem_cons_of_mem _ h')
+
+structure BfsInv (g : MGraph) (s : Nat) (acc q disc : List Nat) : Prop where
+  nodup : (acc ++ q).Nodup
+  discEq : ∀ x, x ∈ disc ↔ x ∈ acc ∨ x ∈ q
+  hasDist : ∀ x, x ∈ disc → ∃ d, IsDist g s x d
+  sorted : (acc ++ q).Pairwise (dle g s)
+  tight : ∀ a, a ∈ q → ∀ b, b ∈ q → ∀ da db, IsDist g s a da → IsDist g s b db → db ≤ da + 1
+  closed : ∀ x, x ∈ acc → ∀ y, g.Adj x y → y ∈ disc
+  start : s ∈ disc
+
+theorem bfsInv_step (g : MGraph) (s x : Nat) (acc q0 disc news : List Nat)
+    (inv : BfsInv g s acc (x :: q0) disc) (hn : news.Nodup)
+    (h1 : ∀ y, y ∈ news → g.Adj x y ∧ y ∉ disc) (h2 : ∀ y, g.Adj x y → y ∈ disc ∨ y ∈ news) :
+    BfsInv g s (acc ++ [x]) (q0 ++ news) (news.reverse ++ disc) := by
+  have hxd : x ∈ disc := (inv.discEq x).mpr (Or.inr (List.mem_cons_self ..))
+  obtain ⟨L, hL⟩ := inv.hasDist x hxd
+  obtain ⟨hsA, hsQ, hsAQ⟩ := List.pairwise_append.mp inv.sorted
+  obtain ⟨hsx, hsQ0⟩ := List.pairwise_cons.mp hsQ
+  -- everything within distance `L` is discovered
+  have claimA : ∀ m z, WalkLen g s z m → m ≤ L → z ∈ disc := by
+    intro m z hw
+    induction hw with
+    | zero => exact fun _ => inv.start
+    | @succ b c n hwb hadj ih =>
+      intro hle
+      have hb : b ∈ disc := ih (by omega)
+      obtain ⟨db, hdb⟩ := inv.hasDist b hb
+      have hdbn : db ≤ n := hdb.2 n hwb
+      rcases (inv.discEq b).mp hb with hba | hbq
+      · exact inv.closed b hba c hadj
+      · exfalso
+        rcases List.mem_cons.mp hbq with h | h
+        · subst h
+          have := hdb.unique hL
+          omega
+        · have := hsx b h L db hL hdb
+          omega
+  have claimB : ∀ y, y ∈ news → IsDist g s y (L + 1) := by
+    intro y hy
+    refine ⟨WalkLen.succ hL.1 (h1 y hy).1, ?_⟩
+    intro m hm
+    apply Classical.byContradiction
+    intro hlt
+    exact (h1 y hy).2 (claimA m y hm (by omega))
+  have hre : acc ++ [x] ++ (q0 ++ news) = (acc ++ x :: q0) ++ news := by simp
+  refine ⟨?_, ?_, ?_, ?_, ?_, ?_, ?_⟩
+  · rw [hre]
+    refine List.nodup_append.mpr ⟨inv.nodup, hn, ?_⟩
+    intro a ha b hb hab
+    subst hab
+    exact (h1 a hb).2 ((inv.discEq a).mpr (List.mem_append.mp ha))
+  · intro y
+    simp only [List.mem_append, List.mem_reverse, inv.discEq y, List.mem_cons,
+      List.not_mem_nil, or_false]
+    grind
+  · intro y hy
+    rcases List.mem_append.mp hy with h | h
+    · exact ⟨L + 1, claimB y (List.mem_reverse.mp h)⟩
+    · exact inv.hasDist y h
+  · rw [hre]
+    refine List.pairwise_append.mpr ⟨inv.sorted, ?_, ?_⟩
+    · apply List.Pairwise.imp_of_mem (R := fun _ _ => True) ?_ (List.pairwise_of_forall (fun _ _ => trivial))
+      intro a b ha hb _ da db hda hdb
+      have := hda.unique (claimB a ha)
+      have := hdb.unique (claimB b hb)
+      omega
+    · intro a ha b hb da db hda hdb
+      have := hdb.unique (claimB b hb)
+      rcases List.mem_append.mp ha with h | h
+      · have := hsAQ a h x (List.mem_cons_self ..) da L hda hL
+        omega
+      · have := inv.tight x (List.mem_cons_self ..) a h L da hL hda
+        omega
+  · intro a ha b hb da db hda hdb
+    rcases List.mem_append.mp ha with ha | ha <;> rcases List.mem_append.mp hb with hb | hb
+    · exact inv.tight a (List.mem_cons_of_mem _ ha) b (List.mem_cons_of_mem _ hb) da db hda hdb
+    · have := hdb.unique (claimB b hb)
+      have := hsx a ha L da hL hda
+      omega
+    · have := hda.unique (claimB a ha)
+      have := inv.tight x (List.mem_cons_self ..) b (List.mem_cons_of_mem _ hb) L db hL hdb
+      omega
+    · have := hda.unique (claimB a ha)
+      have := hdb.unique (claimB b hb)
+      omega
+  · intro a ha y hy
+    rcases List.mem_append.mp ha with h | h
+    · exact List.mem_append_right _ (inv.closed a h y hy)
+    · simp at h; subst h
+      rcases h2 y hy with h' | h'
+      · exact List.mem_append_right _ h'
+      · exact List.mem_append_left _ (List.mem_reverse.mpr h')
+  · exact List.mem_append_right _ inv.start
+
+theorem bfsNext_nil (v : View) (b : Bfs) (h : b.queue = []) : bfsNext v b = (none, b) := by
+  unfold bfsNext; rw [h]
+
+theorem bfsNext_cons (v : View) (b : Bfs) (x : Nat) (q : List Nat) (h : b.queue = x :: q) :
+    bfsNext v b = (some x, { queue := (bfsVisitAll b.disc q (v.succ x)).2,
+                             disc := (bfsVisitAll b.disc q (v.succ x)).1 }) := by
+  unfold bfsNext; rw [h]
+
+theorem bfsAll_inv (v : View) (hv : ViewOk v) (s : Nat) :
+    ∀ (k : Nat) (b : Bfs) (acc out : List Nat), BfsInv v.g s acc b.queue b.disc →
+      bfsAll v k b acc = some out → ∃ disc, BfsInv v.g s out [] disc := by
+  intro k
+  induction k with
+  | zero => intro b acc out _ h; simp [bfsAll] at h
+  | succ k ih =>
+    intro b acc out inv h
+    rw [bfsAll] at h
+    cases hq : b.queue with
+    | nil =>
+      rw [bfsNext_nil v b hq] at h
+      simp only [Option.some.injEq] at h
+      subst h
+      rw [hq] at inv
+      exact ⟨_, inv⟩
+    | cons x q0 =>
+      rw [bfsNext_cons v b x q0 hq] at h
+      rw [hq] at inv
+      obtain ⟨news, e, hn, h3, h4⟩ := bfsVisitAll_spec (v.succ x) b.disc q0
+      rw [e] at h
+      refine ih _ _ out ?_ h
+      exact bfsInv_step v.g s x acc q0 b.disc news inv hn
+        (fun y hy => ⟨(hv x y).mp (h3 y hy).1, (h3 y hy).2⟩) (fun y hy => h4 y ((hv x y).mpr hy))
+
 /-! ### obligations (statements fixed by `Theorems/C08.lean`) -/
 
 theorem dfs_moveTo (v : View) (hv : ViewOk v) (s : Nat) (D : List Nat) (inner outer : Nat)
     (out : List Nat) (d' : Dfs)
     (h : dfsAll v inner outer { stack := [s], disc := D } [] = some (out, d')) :
-    out.Nodup ∧ (∀ x, x ∈ out ↔ ReachAvoid v.g D s x) ∧ (∀ x, x ∈ d'.disc ↔ x ∈ D ∨ x ∈ out) := by sorry
+    out.Nodup ∧ (∀ x, x ∈ out ↔ ReachAvoid v.g D s x) ∧ (∀ x, x ∈ d'.disc ↔ x ∈ D ∨ x ∈ out) := by
+  have inv0 : DfsInv v.g D s [s] D [] := by
+    refine ⟨List.nodup_nil, by simp, by simp, ?_, by simp, Or.inr (by simp)⟩
+    intro x hx
+    simp at hx; subst hx
+    by_cases h : x ∈ D
+    · exact Or.inl h
+    · exact Or.inr (ReachAvoid.refl h)
+  have inv := dfsAll_inv v hv D s inner outer _ [] out d' inv0 h
+  refine ⟨inv.nodup, fun x => ⟨inv.accAvoid x, ?_⟩, inv.discEq⟩
+  intro hx
+  induction hx with
+  | refl hD =>
+    rcases inv.start with h | h
+    · rcases (inv.discEq _).mp h with h | h
+      · exact absurd h hD
+      · exact h
+    · cases h
+  | step _ hc hD ih =>
+    rcases inv.closed _ ih _ hc with h | h
+    · rcases (inv.discEq _).mp h with h | h
+      · exact absurd h hD
+      · exact h
+    · cases h
+
 
 theorem dfs_fresh (v : View) (hv : ViewOk v) (s : Nat) (inner outer : Nat) (out : List Nat) (d' : Dfs)
     (h : dfsAll v inner outer { stack := [s], disc := [] } [] = some (out, d')) :
-    out.Nodup ∧ ∀ x, x ∈ out ↔ Reach v.g s x := by sorry
+    out.Nodup ∧ ∀ x, x ∈ out ↔ Reach v.g s x := by
+  have := dfs_moveTo v hv s [] inner outer out d' h
+  exact ⟨this.1, fun x => (this.2.1 x).trans reachAvoid_nil⟩
 
 theorem bfs_spec (v : View) (hv : ViewOk v) (s : Nat) (fuel : Nat) (out : List Nat)
     (h : bfsAll v fuel (Bfs.new s) [] = some out) :
     out.Nodup ∧ (∀ x, x ∈ out ↔ Reach v.g s x) ∧
     ∀ i j (hi : i < out.length) (hj : j < out.length), i ≤ j →
-      ∀ di dj, IsDist v.g s out[i] di → IsDist v.g s out[j] dj → di ≤ dj := by sorry
+      ∀ di dj, IsDist v.g s out[i] di → IsDist v.g s out[j] dj → di ≤ dj := by
+  have hs0 : IsDist v.g s s 0 := ⟨WalkLen.zero s, fun _ _ => Nat.zero_le _⟩
+  have inv0 : BfsInv v.g s [] [s] [s] := by
+    refine ⟨by simp, by simp, ?_, by simp, ?_, by simp, by simp⟩
+    · intro x hx; simp at hx; subst hx; exact ⟨0, hs0⟩
+    · intro a ha b hb da db hda hdb
+      simp at ha hb; subst ha; subst hb
+      have := hdb.unique hs0
+      omega
+  obtain ⟨disc, inv⟩ := bfsAll_inv v hv s fuel (Bfs.new s) [] out inv0 h
+  have hnd := inv.nodup
+  have hso := inv.sorted
+  rw [List.append_nil] at hnd hso
+  have hde : ∀ x, x ∈ disc ↔ x ∈ out := by
+    intro x; rw [inv.discEq x]; simp
+  refine ⟨hnd, fun x => ⟨?_, ?_⟩, ?_⟩
+  · intro hx
+    obtain ⟨d, hd⟩ := inv.hasDist x ((hde x).mpr hx)
+    exact hd.1.reach
+  · intro hx
+    rw [← hde]
+    induction hx with
+    | refl => exact inv.start
+    | step _ hc ih => exact inv.closed _ ((hde _).mp ih) _ hc
+  · intro i j hi hj hij di dj hdi hdj
+    rcases Nat.lt_or_eq_of_le hij with hlt | heq
+    · exact List.pairwise_iff_getElem.mp hso i j hi hj hlt di dj hdi hdj
+    · subst heq
+      exact Nat.le_of_eq (hdi.unique hdj)
 
 theorem post_set (v : View) (hv : ViewOk v) (s : Nat) (inner outer : Nat) (out : List Nat)
     (d' : Post) (h : postAll v inner outer { stack := [s] } [] = some (out, d')) :
-    out.Nodup ∧ ∀ x, x ∈ out ↔ Reach v.g s x := by sorry
+    out.Nodup ∧ ∀ x, x ∈ out ↔ Reach v.g s x := by
+  obtain ⟨inv, ainv⟩ := post_all v hv s inner outer out d' h
+  refine ⟨ainv.nodup, fun x => ⟨fun hx => inv.discReach x (inv.finDisc x ((ainv.accEq x).mp hx)), ?_⟩⟩
+  intro hx
+  have hdf : ∀ a, a ∈ d'.disc → a ∈ d'.fin := by
+    intro a ha
+    apply Classical.byContradiction
+    intro haf
+    cases inv.grayStack a ha haf
+  rw [ainv.accEq]
+  induction hx with
+  | refl =>
+    rcases inv.start with h | h
+    · exact hdf _ h
+    · cases h
+  | step _ hc ih => exact hdf _ (inv.closed _ ih _ hc)
 
 theorem post_order (v : View) (hv : ViewOk v) (s : Nat) (inner outer : Nat) (out : List Nat)
     (d' : Post) (h : postAll v inner outer { stack := [s] } [] = some (out, d'))
     (x y : Nat) (hx : x ∈ out) (hxy : v.g.Adj x y) (hback : ¬ Reach v.g y x) :
-    out.idxOf y < out.idxOf x := by sorry
+    out.idxOf y < out.idxOf x := by
+  exact ((post_all v hv s inner outer out d' h).2.order x hx y hxy hback).2
 
+set_option linter.unusedVariables false in
 theorem topo_order (v : View) (hv : ViewOk v) (hp : PredOk v) (inner outer : Nat) (out : List Nat)
     (h : topoAll v inner outer (Topo.new v) [] = some out) :
-    out.Nodup ∧ ∀ x ∈ out, ∀ p, v.g.Adj p x → p ∈ out ∧ out.idxOf p < out.idxOf x := by sorry
+    out.Nodup ∧ ∀ x ∈ out, ∀ p, v.g.Adj p x → p ∈ out ∧ out.idxOf p < out.idxOf x := by
+  refine topoAll_inv v hp inner outer _ [] out ⟨List.nodup_nil, by simp [Topo.new], ?_, by simp⟩ h
+  intro x hx p hpx
+  simp only [Topo.new, Topo.initials, List.mem_reverse, List.mem_filter, List.isEmpty_iff] at hx
+  have := (hp x p).mpr hpx
+  rw [hx.2] at this
+  cases this
 
 theorem topo_no_cyclic (v : View) (hv : ViewOk v) (hp : PredOk v) (inner outer : Nat) (out : List Nat)
     (h : topoAll v inner outer (Topo.new v) [] = some out) (c x : Nat)
-    (hc : Reach1 v.g c c) (hcx : Reach v.g c x) : x ∉ out := by sorry
+    (hc : Reach1 v.g c c) (hcx : Reach v.g c x) : x ∉ out := by
+  have ho := (topo_order v hv hp inner outer out h).2
+  intro hx
+  have hcout : c ∈ out := by
+    induction hcx with
+    | refl => exact hx
+    | step _ hadj ih => exact ih (ho _ hx _ hadj).1
+  have key : ∀ a b, Reach1 v.g a b → b ∈ out → a ∈ out ∧ out.idxOf a < out.idxOf b := by
+    intro a b hab
+    induction hab with
+    | single hadj => exact fun hb => ho _ hb _ hadj
+    | step _ hadj ih =>
+      intro hc'
+      have h1 := ho _ hc' _ hadj
+      have h2 := ih h1.1
+      exact ⟨h2.1, Nat.lt_trans h2.2 h1.2⟩
+  exact Nat.lt_irrefl _ (key c c hc hcout).2
 
 theorem dfsv_times (v : View) (script : List Ctl) (fuel : Nat) (starts : List Nat) (s' : VS) (r : Res)
     (h : dfsSearch v script fuel starts {} = (s', r)) :
     (s'.evs.reverse.filterMap fun e => match e with
-      | .discover _ t => some t | .finish _ t => some t | _ => none) = List.range s'.time := by sorry
+      | .discover _ t => some t | .finish _ t => some t | _ => none) = List.range s'.time := by
+  have h0 : TimesOk ({} : VS) := rfl
+  have h1 := dfsSearch_timesOk v script fuel starts {} h0
+  rw [h] at h1
+  exact h1
 
 end PetgraphModel.TravProofs
